@@ -42,16 +42,23 @@ def configs(tier):
     N = 4 if quick else 6
     for n in range(0, N + 1):
         for ids in idlists:
-            if ids is not None and n >= 4 and len(ids) >= 3 and quick:
-                continue
-            if n >= 5 and (ids is None or len(ids) > 2):
-                continue
-            if n >= 6 and len(ids) > 1:
-                continue
+            nid = 3 if ids is None else len(ids)
+            if quick:
+                if n == 4 and not (ids in ([0], [3, 0])):
+                    continue
+            else:
+                if n == 4 and nid > 2 and ids is not None and ids != [1, 3, 0]:
+                    continue
+                if n == 5 and nid > 2:
+                    continue
+                if n >= 6 and nid > 1:
+                    continue
             for b in (1, 2, 3):
                 for half in ((0, 1, 2) if quick else (0, 1, 2, 3)):
-                    if n >= 3 and (b + half + n) % 2 == 1 and quick:
-                        continue  # thin out: half of the (bin, half) grid per n
+                    if quick and n == 4 and (b == 3 or (ids == [3, 0] and half == 2)):
+                        continue
+                    if not quick and n >= 5 and (b + half) % 2 == 1:
+                        continue
                     rate = 1.0 if (b + half) % 2 == 0 else 2.0
                     out.append({'kind': 'ccg', 'n': n, 'ids': ids, 'bin': b, 'half': half, 'rate': rate})
     for n in range(0, 4):
@@ -87,10 +94,11 @@ def _inputs(e, cfg):
 def run_config(cfg, e):
     kind = cfg['kind']
 
+    pkg = env.make_pkg(record=e.functions)
+    ccg = pkg.load('phylib.stats.ccg')
+
     def fn():
         vfs.reset()
-        pkg = env.make_pkg(record=e.functions)
-        ccg = pkg.load('phylib.stats.ccg')
         ks, labs, times, sc = _inputs(e, cfg)
         n, ids = cfg['n'], cfg['ids']
         if kind == 'ccg':
@@ -115,23 +123,32 @@ def run_config(cfg, e):
             e.prove(C.shape == (nc, nc, half + 1), 'one-sided shape %s' % (C.shape,))
             e.prove(S.shape == (nc, nc, 2 * half + 1), 'symmetrised shape %s' % (S.shape,))
 
+            lagt = {(a, bb): (ks[bb].term - ks[a].term) / z3.IntVal(b)
+                    for a in range(n) for bb in range(a + 1, n)}
+            labt = {(a, c): labs[a].term == c for a in range(n) for c in idl}
+            one, zero = z3.IntVal(1), z3.IntVal(0)
+            memo = {}
+
             def want(i, j, k):
-                terms = []
-                for a in range(n):
-                    for bb in range(a + 1, n):
-                        lag = (ks[bb] - ks[a]) // b
-                        terms.append(ite(sand(labs[a] == idl[i], labs[bb] == idl[j], lag == k), 1, 0))
-                return ssum(terms) if terms else 0
+                if (i, j, k) in memo:
+                    return memo[(i, j, k)]
+                terms = [z3.If(z3.And(labt[(a, idl[i])], labt[(bb, idl[j])], lagt[(a, bb)] == k), one, zero)
+                         for a in range(n) for bb in range(a + 1, n)]
+                r = SymInt(z3.Sum(terms)) if terms else 0
+                memo[(i, j, k)] = r
+                return r
+            obl = []
             for i in range(nc):
                 for j in range(nc):
                     for k in range(half + 1):
                         w = want(i, j, k)
-                        e.prove(C.a[i, j, k] == w, 'one-sided count C[%d,%d,%d]' % (i, j, k))
+                        obl.append((C.a[i, j, k] == w, 'one-sided count C[%d,%d,%d]' % (i, j, k)))
                         if k > 0:
-                            e.prove(S.a[i, j, half + k] == w, 'symmetrised positive lag [%d,%d,+%d]' % (i, j, k))
-                            e.prove(S.a[j, i, half - k] == w, 'symmetrised negative lag [%d,%d,-%d]' % (j, i, k))
+                            obl.append((S.a[i, j, half + k] == w, 'symmetrised positive lag [%d,%d,+%d]' % (i, j, k)))
+                            obl.append((S.a[j, i, half - k] == w, 'symmetrised negative lag [%d,%d,-%d]' % (j, i, k)))
                     w0, w1 = want(i, j, 0), want(j, i, 0)
-                    e.prove(S.a[i, j, half] == ite(w0 >= w1, w0, w1), 'symmetrised centre [%d,%d]' % (i, j))
+                    obl.append((S.a[i, j, half] == ite(w0 >= w1, w0, w1), 'symmetrised centre [%d,%d]' % (i, j)))
+            e.prove_all(obl)
             e.witness()
         else:
             dur = cfg['dur']
